@@ -82,10 +82,15 @@ def trace_validate(chk, module, trace_path, describe, timeout=900, env=None):
     chk.states += r.distinct
     chk.transitions += r.transitions
     chk.traces += len(recs) - len(res["bad"])
-    for idx in res["bad"]:
+    for b in res["bad"]:
+        idx, extra = (b, None) if isinstance(b, int) else (b[0], b[1])
         rec = recs[idx - 1]
-        sig, desc = describe(rec)
-        chk.violate(sig, desc, {"trace_record": rec, "trace_spec": module})
+        out = describe(rec, extra) if extra is not None else describe(rec)
+        sig, desc = out[0], out[1]
+        case = {"trace_record": rec, "trace_spec": module, "trace_index": idx}
+        if len(out) > 2:
+            case.update(out[2])
+        chk.violate(sig, desc, case)
     return res
 
 
@@ -146,3 +151,145 @@ def check_c10(chk, tier):
                 "get_type_size and every contract/struct of the corpus.")
     chk.assumptions = ["solang-parser 0.1.18 parses the rendered containers as written",
                        "the harness' mapping of a type expression to its class (bool/address/uintN/...) is right"]
+
+
+# ---------------------------------------------------------------------------
+# C09
+# ---------------------------------------------------------------------------
+
+@prop("C09")
+def check_c09(chk, tier):
+    hb = vlib.build_harness("dev")
+    d = wdir("C09")
+    cfg = "MC_C09.quick.cfg" if tier == "quick" else "MC_C09.thorough.cfg"
+    r = vlib.tlc("MC_C09", cfg, workers=8, timeout=3000)
+    chk.add_tlc(r)
+    beh = r.records.get("REPLAY", [])
+    if len(beh) < 5000:
+        raise ToolError("MC_C09 generated only %d behaviours" % len(beh))
+    if tier == "thorough":
+        # negative control: a scan that takes the first pragma of any kind must violate the spec
+        neg = vlib.tlc("MC_C09", "MC_C09.neg.cfg", workers=4, timeout=600, expect_violation=True)
+        if not neg.violated:
+            raise ToolError("negative control FirstPragmaWins did not violate ScanFindsSolidity")
+        chk.extra["negative_controls"] = ["FirstPragmaWins violates %s" % neg.violated]
+    bpath = os.path.join(d, "behaviours.ndjson")
+    vlib.write_ndjson(bpath, beh)
+    res = vlib.harness(hb, ["c09-replay", bpath])
+    chk.add_harness(res)
+    corpus = prepare_corpus()
+    tpath = os.path.join(d, "trace.ndjson")
+    res2 = vlib.harness(hb, ["c09-record", corpus, tpath])
+    chk.add_harness(res2, count_traces=False)
+
+    def describe(rec):
+        return ("program-gates", "corpus program %s: the four version-gated detectors do not follow the version gates "
+                "(samples: %s)" % (rec.get("src"), json.dumps(rec.get("samples"))[:400]))
+    trace_validate(chk, "TV_C09", tpath, describe)
+    chk.exhaustive = True
+    chk.rule = ("TLC enumerates every version triple in 0.0.0..2.12.40 with the bare spelling in 7 header shapes, and "
+                "(quick: boundary versions; thorough: all) with 6 operator spellings; for each header it runs the pragma "
+                "scan machine and prints the gates; the harness renders header + a fixed body (SafeMath call sites, requires "
+                "with 1/31/32/33-byte and multi-byte strings) and compares the four real detectors and the real version "
+                "extraction with the gates. Non-trivial = header with an operator or an unrelated pragma. TV: every corpus "
+                "program under 13 sampled versions must be explained by version-independent line sets and the gates.")
+    chk.assumptions = ["the fixed body's flag lines are as annotated in harness/src/c09.rs"]
+
+
+# ---------------------------------------------------------------------------
+# C02 / C17 (shared layout machinery)
+# ---------------------------------------------------------------------------
+
+def _layout_check(chk, tier, pid):
+    hb = vlib.build_harness("dev")
+    d = wdir(pid)
+    suffix = "quick" if tier == "quick" else "thorough"
+    # the Emit machine: layout-level lines = byte-level definition; generates the gap patterns
+    r = vlib.tlc("MC_C02_Emit", "MC_C02_Emit.%s.cfg" % suffix, workers=8, timeout=3000)
+    chk.add_tlc(r)
+    pats = r.records.get("REPLAY", [])
+    if len(pats) < 100:
+        raise ToolError("MC_C02_Emit generated only %d gap patterns" % len(pats))
+    ppath = os.path.join(d, "patterns.ndjson")
+    vlib.write_ndjson(ppath, pats)
+    corpus = prepare_corpus()
+    tpath = os.path.join(d, "trace.ndjson")
+    xpath = os.path.join(d, "texts.ndjson")
+    mode = "c17" if pid == "C17" else "c02"
+    per = {"quick": 8, "thorough": 40}[tier]
+    res = vlib.harness(hb, ["layout-record", corpus, ppath, mode, str(per), tpath, xpath], timeout=3000)
+    chk.add_harness(res, count_traces=False)
+    texts = vlib.read_ndjson(xpath)
+
+    def describe(rec, det):
+        idx = describe.recs.index(rec) if False else None
+        return ("%s:%s" % ("relayout-tokens" if pid == "C17" else "relayout-lines", det),
+                "%s on %s (%s): after re-layout the reported lines are not the lines of the tokens flagged on the "
+                "one-token-per-line layout" % (det, rec.get("src"), rec.get("variant")),
+                {})
+    res_tv = trace_validate(chk, "TV_C02", tpath, describe, timeout=3000)
+    # attach the re-laid-out text to the replay files
+    for v in chk.violations:
+        case = v["replay"]
+        i = case.get("trace_index")
+        if i and i <= len(texts):
+            case["source"] = texts[i - 1]["text"]
+            rec = case.get("trace_record", {})
+            det = v["sig"].split(":", 1)[1] if ":" in v["sig"] else ""
+            case["detector"] = det
+            for dd in rec.get("dets", []):
+                if dd["d"] == det:
+                    case["flag_tokens"] = dd["F"]
+                    case["observed"] = dd["rep"]
+            # refine the signature: is the offending construct on the unterminated last line?
+            if "observed" in case and 0 in case["observed"]:
+                v["sig"] = v["sig"] + ":line0"
+            case.pop("trace_record", None)
+    return r
+
+
+@prop("C02")
+def check_c02(chk, tier):
+    hb = vlib.build_harness("dev")
+    d = wdir("C02")
+    suffix = "quick" if tier == "quick" else "thorough"
+    # (a) the offset -> line machine on every small text and token-start offset
+    r = vlib.tlc("MC_C02_Scan", "MC_C02_Scan.%s.cfg" % suffix, workers=8, timeout=3000)
+    chk.add_tlc(r)
+    beh = r.records.get("REPLAY", [])
+    if len(beh) < 1000:
+        raise ToolError("MC_C02_Scan generated only %d behaviours" % len(beh))
+    if tier == "thorough":
+        neg = vlib.tlc("MC_C02_Scan", "MC_C02_Scan.neg.cfg", workers=4, timeout=600, expect_violation=True)
+        if neg.violated != "ScanIsLineOf":
+            raise ToolError("negative control ReturnZeroAtEnd did not violate ScanIsLineOf")
+        chk.extra["negative_controls"] = ["ReturnZeroAtEnd violates ScanIsLineOf"]
+    bpath = os.path.join(d, "scan.ndjson")
+    vlib.write_ndjson(bpath, beh)
+    chk.add_harness(vlib.harness(hb, ["scan-replay", bpath]))
+    # (b) whole programs re-laid out
+    _layout_check(chk, tier, "C02")
+    chk.exhaustive = True
+    chk.rule = ("(a) TLC enumerates every well-formed text of byte classes {LF,CR,W,A,2-byte char} up to the configured "
+                "length and every token-start offset, runs the Scan machine and checks it against LineOf; each "
+                "(text, offset) is materialised and passed to get_line_number. (b) TLC enumerates gap patterns for the "
+                "Emit machine (TokLine = LineOf o TokOffset); corpus programs are lexed with solang's lexer and re-laid "
+                "out with fixed stress layouts (single line without final newline, CRLF, blank lines) and a rotating "
+                "subset of the TLC patterns; TV_C02 accepts a record iff the reported lines are exactly the lines of the "
+                "tokens flagged on the one-token-per-line layout. Non-trivial = text with LF or multi-byte / layout "
+                "record where some detector flags something.")
+    chk.assumptions = ["solang's public lexer yields the same token boundaries the parser sees",
+                       "pragma values are atomic for re-layout (solang lexes everything up to ';' as the value)"]
+
+
+@prop("C17")
+def check_c17(chk, tier):
+    _layout_check(chk, tier, "C17")
+    chk.rule = ("Corpus programs (original and with every string literal replaced by code-like text) are lexed, laid out "
+                "one token per line to obtain the flag tokens of each of the 30 detectors, then re-laid out with gap "
+                "patterns enumerated by TLC (MC_C02_Emit), made injective (every token on its own line) and filled with "
+                "line/block comments containing code-like and multi-byte text, CRLF, tabs and blank lines. TV_C02 accepts "
+                "a record iff exactly the same tokens are flagged and the lines moved with them. Non-trivial = records "
+                "in which some detector flags something.")
+    chk.assumptions = ["solang's public lexer yields the same token boundaries the parser sees",
+                       "comments adjacent to a pragma value are not generated (they would be part of the value token)"]
